@@ -2,6 +2,7 @@ import Driver.Util
 import Driver.Lru
 import Driver.Registry
 import Driver.Bind
+import Driver.Deps
 open Lean
 
 def dispatch (j : Json) : Except String Json := do
@@ -11,6 +12,8 @@ def dispatch (j : Json) : Except String Json := do
   | "tmpl" => Driver.LruD.handleTmpl j
   | "registry" => Driver.RegistryD.handle j
   | "bind" => Driver.BindD.handle j
+  | "deps" => Driver.DepsD.handle j
+  | "middleware" => Driver.DepsD.handleMw j
   | "ping" => pure (Json.mkObj [("pong", Json.bool true)])
   | _ => throw s!"unknown op {op}"
 
